@@ -22,9 +22,33 @@ pub struct Op {
     pub real: String,
 }
 
+/// contract clause assumed of `unicode-linebreak` by the Lean theorems (`OppsNoSpace`): no break
+/// opportunity directly before a space (UAX #14 rule LB7) — except directly after a mandatory
+/// break character (LB4/LB5: CR, LF, VT, FF, NEL, LS, PS), where the clause does not apply and the
+/// theorems' hypothesis is simply false for that line. Checked on every call; violations are
+/// collected here and reported by `main`.
+pub static LB7_CHECKED: std::sync::atomic::AtomicU64 = std::sync::atomic::AtomicU64::new(0);
+pub static LB7_AFTER_HARD_BREAK: std::sync::atomic::AtomicU64 = std::sync::atomic::AtomicU64::new(0);
+pub static LB7_VIOLATIONS: std::sync::Mutex<Vec<String>> = std::sync::Mutex::new(Vec::new());
+
 #[cfg(feature = "full")]
 pub fn opps_of_stripped(stripped: &str) -> Vec<usize> {
-    unicode_linebreak::linebreaks(stripped).map(|(i, _)| i).collect()
+    let v: Vec<usize> = unicode_linebreak::linebreaks(stripped).map(|(i, _)| i).collect();
+    LB7_CHECKED.fetch_add(1, std::sync::atomic::Ordering::Relaxed);
+    for &o in &v {
+        if stripped.get(o..).and_then(|r| r.chars().next()) == Some(' ') {
+            let prev = stripped[..o].chars().next_back();
+            if matches!(prev, Some('\n' | '\r' | '\u{b}' | '\u{c}' | '\u{85}' | '\u{2028}' | '\u{2029}')) {
+                LB7_AFTER_HARD_BREAK.fetch_add(1, std::sync::atomic::Ordering::Relaxed);
+                continue;
+            }
+            let mut g = LB7_VIOLATIONS.lock().unwrap();
+            if g.len() < 20 {
+                g.push(format!("linebreaks({:?}) has an opportunity at {} directly before a space", stripped, o));
+            }
+        }
+    }
+    v
 }
 
 /// `stripped=opps` entries for the paragraphs `find_words` will see (Unicode separator only)
